@@ -403,6 +403,7 @@ func (c *Ctx) outermostMiddleware() {
 			bad = append(bad, p.InstrPos(r)+": the wrapped handler does not contain the load balancer")
 		}
 	})
+	c.servedHandlerIsBuiltHandler(bh)
 	if n == 0 {
 		c.Undecided("context-middleware-outermost", construct, p.Pos(bh.Pos()), "no success return found")
 	} else if len(bad) == 0 {
@@ -729,6 +730,57 @@ func checkC17(c *Ctx) {
 				panicking = append(panicking, p.InstrPos(ta)+": "+p.FuncKey(fn)+" asserts "+ta.AssertedType.String()+" without the comma-ok form (an unexpected YAML type panics at start-up or per request)")
 			}
 		})
+	}
+	// … and an option value is never *formatted* into the setting it configures: fmt.Sprint(cfg["apiKey"])
+	// turns null, a list or a map into "<nil>", "[a b]", "map[…]" — every YAML value becomes a valid
+	// setting, so an invalid configuration no longer prevents start-up
+	for _, fn := range p.Funcs {
+		pk := fnPkg(fn)
+		if pk == nil || !strings.HasSuffix(pk.Pkg.Path(), "/internal/plugins") {
+			continue
+		}
+		for _, ci := range callsIn(fn) {
+			call, isCall := ci.(*ssa.Call)
+			if !isCall {
+				continue
+			}
+			switch CalleeName(call) {
+			case "fmt.Sprint", "fmt.Sprintf", "fmt.Sprintln":
+			default:
+				continue
+			}
+			// the variadic slice's elements
+			fromOption := false
+			for _, a := range call.Call.Args {
+				if c.flowsFrom(a, func(v ssa.Value) bool {
+					lk, isLk := v.(*ssa.Lookup)
+					if !isLk {
+						return false
+					}
+					mt, isMap := lk.X.Type().Underlying().(*types.Map)
+					if !isMap {
+						return false
+					}
+					_, isIface := mt.Elem().Underlying().(*types.Interface)
+					return isIface
+				}) {
+					fromOption = true
+				}
+			}
+			// only when the formatted text is used as a value (not inside an error message)
+			if fromOption && call.Referrers() != nil {
+				usedAsValue := false
+				for _, r := range *call.Referrers() {
+					switch r.(type) {
+					case *ssa.Store, *ssa.Phi, *ssa.BinOp, *ssa.MakeClosure:
+						usedAsValue = true
+					}
+				}
+				if usedAsValue {
+					panicking = append(panicking, p.InstrPos(call)+": "+p.FuncKey(fn)+" formats an option value with "+CalleeName(call)+" and uses the text as the setting: any YAML value (null, a list, a map) is accepted as \"<nil>\", \"[a b]\", \"map[…]\" instead of being refused at start-up")
+				}
+			}
+		}
 	}
 	if len(panicking) == 0 {
 		c.Pass("options-checked-assertions", "plugins/*", "-", fmt.Sprintf("%d type assertions in the plugins package, all in comma-ok / type-switch form", nAss))
@@ -1555,6 +1607,142 @@ func headerValueOf(in ssa.Instruction) ssa.Value {
 		}
 	case *ssa.MapUpdate:
 		return singleFreshElement(x.Value)
+	}
+	return nil
+}
+
+// servedHandlerIsBuiltHandler: "outermost" is about what the listener serves, not about what
+// buildHandler returns.  The handler installed in the proxy's http.Server must be the handler builder's
+// result itself: a wrapper added afterwards (http.TimeoutHandler around it, say) sits outside the
+// request-context middleware, and the responses it produces on its own (a 503 on timeout) carry no
+// request/trace ID although the backend was given one.
+func (c *Ctx) servedHandlerIsBuiltHandler(bh *ssa.Function) {
+	p := c.P
+	rule := "context-middleware-outermost"
+	n := 0
+	for _, fn := range p.Funcs {
+		if !p.InScope(fn) {
+			continue
+		}
+		pk := fnPkg(fn)
+		if pk == nil || !strings.HasSuffix(pk.Pkg.Path(), "/cmd/helios") {
+			continue
+		}
+		instrsOf(fn, func(in ssa.Instruction) {
+			k, st := storeKey(in)
+			if k != "http.Server.Handler" {
+				return
+			}
+			// only the server that serves a handler given from outside (the proxy's): the side servers
+			// build their own mux
+			var prm *ssa.Parameter
+			var wrapped string
+			seen := map[ssa.Value]bool{}
+			var walk func(v ssa.Value, d int)
+			walk = func(v ssa.Value, d int) {
+				if v == nil || seen[v] || d > 10 {
+					return
+				}
+				seen[v] = true
+				switch x := v.(type) {
+				case *ssa.Parameter:
+					if x.Type().String() == "net/http.Handler" {
+						prm = x
+					}
+				case *ssa.Phi:
+					for _, e := range x.Edges {
+						walk(e, d+1)
+					}
+				case *ssa.Call:
+					for _, a := range x.Call.Args {
+						if hp := handlerParamOf(a, map[ssa.Value]bool{}, 0); hp != nil {
+							prm = hp
+							if wrapped == "" {
+								wrapped = p.InstrPos(x) + ": " + CalleeName(x)
+							}
+						}
+					}
+				case *ssa.MakeInterface:
+					walk(x.X, d+1)
+				case *ssa.ChangeInterface:
+					walk(x.X, d+1)
+				case *ssa.UnOp:
+					if a, ok := x.X.(*ssa.Alloc); ok && a.Referrers() != nil {
+						for _, r := range *a.Referrers() {
+							if s2, ok := r.(*ssa.Store); ok && s2.Addr == ssa.Value(a) {
+								walk(s2.Val, d+1)
+							}
+						}
+					}
+				}
+			}
+			walk(st.Val, 0)
+			if prm == nil {
+				return
+			}
+			n++
+			construct := p.FuncKey(fn) + "/http.Server.Handler"
+			if wrapped != "" {
+				c.Fail(rule, construct, p.InstrPos(st), "the handler the listener serves is the built handler wrapped once more ("+wrapped+"): the wrapper sits outside the request-context middleware, so the responses it answers itself (a timeout's 503) carry no request/trace ID")
+				return
+			}
+			// … and the caller hands in the handler builder's result
+			okArg := false
+			for _, caller := range p.Funcs {
+				for _, ci := range callsIn(caller) {
+					if StaticFn(ci) != fn {
+						continue
+					}
+					for i, a := range ci.Common().Args {
+						if i < len(fn.Params) && fn.Params[i] == prm {
+							d := p.Desc(a, nil)
+							if bh != nil && strings.Contains(d, bh.Name()+"(") {
+								okArg = true
+							} else {
+								c.Fail(rule, construct, p.InstrPos(ci), "the handler given to the listener is not the handler builder's result: "+d)
+								return
+							}
+						}
+					}
+				}
+			}
+			if okArg {
+				c.Pass(rule, construct, p.InstrPos(st), "the listener serves the handler builder's result itself")
+			} else {
+				c.Undecided(rule, construct, p.InstrPos(st), "no call site hands the built handler to the function that creates the server")
+			}
+		})
+	}
+	c.Floor(rule, n, 1, "servers serving a handler built elsewhere")
+}
+
+// handlerParamOf: the http.Handler parameter v derives from (through φs, conversions and calls), if any.
+func handlerParamOf(v ssa.Value, seen map[ssa.Value]bool, d int) *ssa.Parameter {
+	if v == nil || seen[v] || d > 10 {
+		return nil
+	}
+	seen[v] = true
+	switch x := v.(type) {
+	case *ssa.Parameter:
+		if x.Type().String() == "net/http.Handler" {
+			return x
+		}
+	case *ssa.Phi:
+		for _, e := range x.Edges {
+			if p := handlerParamOf(e, seen, d+1); p != nil {
+				return p
+			}
+		}
+	case *ssa.Call:
+		for _, a := range x.Call.Args {
+			if p := handlerParamOf(a, seen, d+1); p != nil {
+				return p
+			}
+		}
+	case *ssa.MakeInterface:
+		return handlerParamOf(x.X, seen, d+1)
+	case *ssa.ChangeInterface:
+		return handlerParamOf(x.X, seen, d+1)
 	}
 	return nil
 }
